@@ -17,7 +17,7 @@ theorem xorBytes_cancel (k : Bytes) : ∀ ip : Bytes, ip.length ≤ k.length →
       simp only [xorBytes]
       rw [ih ip (by simpa using h), ← UInt8.xor_assoc, UInt8.xor_self, UInt8.zero_xor]
 
-theorem xorBytes_length (k : Bytes) : ∀ ip : Bytes, ip.length ≤ k.length →
+theorem xorBytes_length_of_le (k : Bytes) : ∀ ip : Bytes, ip.length ≤ k.length →
     (xorBytes k ip).length = ip.length := by
   induction k with
   | nil => intro ip h; cases ip with
